@@ -64,11 +64,37 @@ func init() {
 								BindVal: func(v ssa.Value) (constant.Value, bool) {
 									switch x := v.(type) {
 									case *ssa.BinOp:
-										if x.Op == token.LSS && isLenRaw(x.X) {
-											return constant.MakeBool(false), true // not too short
+										// a comparison of len(raw) with a constant: the packet has its common header (12 bytes);
+										// whether it also has room for a first chunk header (16 bytes) is a table input
+										var k int64
+										var lenLeft, isCmp bool
+										if isLenRaw(x.X) {
+											if kk, ok := constFold(x.Y, 0); ok {
+												k, lenLeft, isCmp = kk, true, true
+											}
+										} else if isLenRaw(x.Y) {
+											if kk, ok := constFold(x.X, 0); ok {
+												k, lenLeft, isCmp = kk, false, true
+											}
 										}
-										if x.Op == token.LEQ && isLenRaw(x.Y) {
-											return constant.MakeBool(fcc.present), true // room for a first chunk header?
+										if isCmp {
+											lenGEk := true // len(raw) >= k ?
+											if k > 12 {
+												lenGEk = fcc.present
+											}
+											op := x.Op
+											if !lenLeft {
+												op = swapOp(op)
+											}
+											// now: len op k, with k a threshold (len == k treated as len >= k)
+											switch op {
+											case token.LSS:
+												return constant.MakeBool(!lenGEk), true
+											case token.GEQ:
+												return constant.MakeBool(lenGEk), true
+											case token.LEQ: // len <= k-style tests do not occur for thresholds; be conservative
+											case token.GTR:
+											}
 										}
 									case *ssa.UnOp:
 										if x.Op == token.MUL {
@@ -497,4 +523,31 @@ func derivesFromParam(v ssa.Value) bool {
 		return false
 	}
 	return walk(v, 0)
+}
+
+// constFold: value of an integer expression built from constants only.
+func constFold(v ssa.Value, d int) (int64, bool) {
+	if k, ok := constInt(v); ok {
+		return k, true
+	}
+	if d > 6 {
+		return 0, false
+	}
+	switch x := unconv(v).(type) {
+	case *ssa.BinOp:
+		a, okA := constFold(x.X, d+1)
+		b, okB := constFold(x.Y, d+1)
+		if !okA || !okB {
+			return 0, false
+		}
+		switch x.Op {
+		case token.ADD:
+			return a + b, true
+		case token.SUB:
+			return a - b, true
+		case token.MUL:
+			return a * b, true
+		}
+	}
+	return 0, false
 }
